@@ -94,6 +94,15 @@ def nontrivial_step(pid, sc, st, c):
 
 
 def gen_for(stream, seed):
+    """scenario of a stream; the stream-specific edits may move impacts or household columns, so the avoidance of the
+    inputs of known finding F13 (a rebuilding sector without supplier) is applied again at the end"""
+    sc = _gen_for(stream, seed)
+    if sc.get("events") and stream not in ("excess",):
+        scen.avoid_f13(sc, random.Random(seed ^ 0xF13))
+    return sc
+
+
+def _gen_for(stream, seed):
     rng = random.Random(seed)
     if stream == "excess":
         sc = scen.gen_scenario(seed, "shocked", allow_excess=True, types=["recovery", "rebuild"])
